@@ -1,6 +1,490 @@
-//! `vh grpc-client` — scriptable gRPC client built on rnacos's own generated tonic clients (filled in by the C16 rig).
+//! `vh grpc-client` — scriptable gRPC client built on rnacos's own generated tonic clients
+//! (`rnacos::grpc::nacos_proto::{request_client::RequestClient, bi_request_stream_client::BiRequestStreamClient}`).
+//! Written for C16 (auth enforcement), general enough for C10 (config listen/notify) and C12 (naming register/subscribe).
+//!
+//! # Command protocol
+//!
+//! The process reads one JSON object per line on stdin and writes one JSON object per line on stdout.
+//! Two kinds of output lines exist:
+//!   * **answers**: exactly one per command, carrying the command's `"id"` (echoed verbatim, any JSON value) and
+//!     `"ok": true|false` (`false` = the *client/transport* failed: `"error": "..."`; an application-level refusal by the
+//!     server is `ok:true` with `error_code` / `result_code` set, see `request`);
+//!   * **events**: asynchronous, no `"id"`, key `"event"`: `"push"`, `"stream_closed"`.
+//! Every line carries `"t_ms"` (unix time, ms) and `"mono_us"` (monotonic µs since process start; same clock for all lines).
+//! Commands run strictly in the order read, one at a time, except `request` with `"nowait": true` (answered when done).
+//! Connections are named (`"conn"`, default `"default"`); one connection = one tonic `Channel` = one TCP connection; the
+//! server derives its connection id from the TCP peer address, so the bi-stream and the unary requests of one `conn`
+//! belong together (the server refuses data requests with error 301 "Connection is unregistered." on a connection without
+//! an open bi-stream).
+//!
+//! Commands (`op`):
+//!
+//! * `{"op":"connect","conn":"a","addr":"127.0.0.1:9848","timeout_ms":5000}` — open the TCP/HTTP2 connection.
+//!   `--addr` on the command line is the default address. Answer: `{"ok":true}`.
+//!
+//! * `{"op":"open_stream","conn":"a","setup":{"clientVersion":"Nacos-Rust-Client:verif","tenant":"","labels":{..}},
+//!    "headers":{..},"auto_ack":true,"report":["*"],"wait_registered_ms":3000}`
+//!   — start `BiRequestStream/requestBiStream`, send `ConnectionSetupRequest` (body = `setup`, default as shown; metadata
+//!   headers = `headers`; `"setup": null` sends no set-up request at all), then — unless `wait_registered_ms` is 0 — poll with
+//!   unary `HealthCheckRequest` until the server no longer answers 301 (the server registers the stream asynchronously).
+//!   `auto_ack`: `true` (default) answers every server push `XyzRequest` with `XyzResponse {"resultCode":200,"requestId":<same>}`
+//!   (this is what keeps the connection alive: `ClientDetectionRequest`); `false` answers nothing; a list of type names
+//!   answers only those. `report`: list of push type names reported as events (`["*"]` = all, default).
+//!   Answer: `{"ok":true,"registered":true|false,"register_wait_ms":n}`.
+//!   Events afterwards: `{"event":"push","conn":"a","type":"ConfigChangeNotifyRequest","body":{..},"headers":{..},
+//!   "acked":true}` and finally `{"event":"stream_closed","conn":"a","reason":"eof"|"status: .."|"client-close"}`.
+//!
+//! * `{"op":"request","conn":"a","type":"ConfigQueryRequest","body":{..}|"body_raw":"text","headers":{"accessToken":"t"},
+//!    "client_ip":"1.2.3.4","timeout_ms":5000,"nowait":false}` — unary `Request/request` with an arbitrary type string, JSON
+//!   (or raw) body and arbitrary metadata headers (`accessToken`, `Authorization`, `ClusterToken`, ...). Connects on demand.
+//!   Answer: `{"ok":true,"type":"ConfigQueryResponse"|"ErrorResponse"|..,"body":{..} (or "body_raw"),"result_code":200,
+//!   "error_code":0,"message":"..","resp_headers":{..},"t_call_ms":..,"t_ret_ms":..}`; `result_code`/`error_code`/`message`
+//!   are copied from the body when present (null otherwise). gRPC status errors: `{"ok":false,"error":"status: ..","code":"Unavailable"}`.
+//!
+//! * `{"op":"stream_send","conn":"a","type":"..","body":{..},"headers":{..}}` — send an arbitrary payload on the open bi-stream.
+//!
+//! * `{"op":"close_stream","conn":"a","mode":"polite"|"abrupt"}` — `polite`: half-close the request stream (END_STREAM), the
+//!   server sees a clean end and removes the connection; the TCP connection stays usable. `abrupt`: abort the reader, drop the
+//!   stream (RST_STREAM) and drop the whole channel so the TCP connection is torn down without a gRPC-level goodbye.
+//!   (For a crash-like disappearance without any close the driver can also SIGKILL this process or use `exit` with
+//!   `"abrupt":true`.)
+//!
+//! * `{"op":"disconnect","conn":"a"}` — same as abrupt close, also forgets the connection.
+//! * `{"op":"sleep","ms":100}`, `{"op":"ping"}` (answer only) — sequencing helpers.
+//! * `{"op":"exit","abrupt":false}` — polite: half-close every stream, wait 100 ms, exit 0. abrupt: `process::exit(0)` at once.
+//!   End of stdin = polite exit.
 use crate::util::Args;
+use rnacos::grpc::nacos_proto::{
+    bi_request_stream_client::BiRequestStreamClient, request_client::RequestClient, Payload,
+};
+use rnacos::grpc::PayloadUtils;
+use serde_json::{json, Map, Value};
+use std::collections::HashMap;
+use std::io::Write;
+use std::sync::Arc;
+use std::time::{Duration, Instant};
+use tokio::io::AsyncBufReadExt;
+use tokio::sync::mpsc;
+use tokio::task::JoinHandle;
+use tonic::transport::Channel;
 
-pub fn run(_args: &Args) -> anyhow::Result<()> {
-    anyhow::bail!("not implemented")
+static START: std::sync::OnceLock<Instant> = std::sync::OnceLock::new();
+
+fn start() -> &'static Instant {
+    START.get_or_init(Instant::now)
+}
+
+fn emit(mut v: Value) {
+    if let Some(m) = v.as_object_mut() {
+        m.insert("t_ms".into(), json!(crate::util::now_ms()));
+        m.insert("mono_us".into(), json!(start().elapsed().as_micros() as u64));
+    }
+    let s = serde_json::to_string(&v).unwrap_or_else(|_| "{}".into());
+    let out = std::io::stdout();
+    let mut l = out.lock();
+    let _ = l.write_all(s.as_bytes());
+    let _ = l.write_all(b"\n");
+    let _ = l.flush();
+}
+
+fn answer(id: &Value, mut v: Value) {
+    if let Some(m) = v.as_object_mut() {
+        m.insert("id".into(), id.clone());
+    }
+    emit(v);
+}
+
+fn headers_of(v: Option<&Value>) -> HashMap<String, String> {
+    let mut h = HashMap::new();
+    if let Some(Value::Object(m)) = v {
+        for (k, x) in m {
+            let s = match x {
+                Value::String(s) => s.clone(),
+                other => other.to_string(),
+            };
+            h.insert(k.clone(), s);
+        }
+    }
+    h
+}
+
+fn build_payload(cmd: &Value) -> Payload {
+    let t = cmd.get("type").and_then(|x| x.as_str()).unwrap_or("");
+    let body = if let Some(raw) = cmd.get("body_raw").and_then(|x| x.as_str()) {
+        raw.to_string()
+    } else {
+        match cmd.get("body") {
+            Some(Value::Null) | None => "{}".to_string(),
+            Some(b) => b.to_string(),
+        }
+    };
+    let ip = cmd.get("client_ip").and_then(|x| x.as_str()).unwrap_or("127.0.0.1");
+    PayloadUtils::build_full_payload(t, body, ip, headers_of(cmd.get("headers")))
+}
+
+fn payload_to_json(p: &Payload) -> Map<String, Value> {
+    let mut m = Map::new();
+    if let Some(meta) = &p.metadata {
+        m.insert("type".into(), json!(meta.r#type));
+        m.insert("resp_headers".into(), json!(meta.headers));
+    } else {
+        m.insert("type".into(), Value::Null);
+    }
+    let raw = p.body.as_ref().map(|b| b.value.clone()).unwrap_or_default();
+    match serde_json::from_slice::<Value>(&raw) {
+        Ok(v) => {
+            m.insert("result_code".into(), v.get("resultCode").cloned().unwrap_or(Value::Null));
+            m.insert("error_code".into(), v.get("errorCode").cloned().unwrap_or(Value::Null));
+            m.insert("message".into(), v.get("message").cloned().unwrap_or(Value::Null));
+            m.insert("body".into(), v);
+        }
+        Err(_) => {
+            m.insert("result_code".into(), Value::Null);
+            m.insert("error_code".into(), Value::Null);
+            m.insert("message".into(), Value::Null);
+            m.insert("body_raw".into(), json!(String::from_utf8_lossy(&raw).to_string()));
+        }
+    }
+    m
+}
+
+type SharedTx = Arc<std::sync::Mutex<Option<mpsc::Sender<Payload>>>>;
+
+struct Conn {
+    addr: String,
+    channel: Channel,
+    /// the only long-lived sender of the request stream (shared with the reader task, which uses it for acks);
+    /// taking it out half-closes the stream
+    stream_tx: Option<SharedTx>,
+    reader: Option<JoinHandle<()>>,
+}
+
+fn tx_of(s: &SharedTx) -> Option<mpsc::Sender<Payload>> {
+    s.lock().ok().and_then(|g| g.as_ref().cloned())
+}
+
+struct Client {
+    default_addr: String,
+    conns: HashMap<String, Conn>,
+}
+
+#[derive(Clone)]
+enum Sel {
+    All,
+    None,
+    Some(Arc<Vec<String>>),
+}
+
+impl Sel {
+    fn parse(v: Option<&Value>, default_all: bool) -> Sel {
+        match v {
+            Some(Value::Bool(true)) => Sel::All,
+            Some(Value::Bool(false)) => Sel::None,
+            Some(Value::Array(a)) => {
+                let l: Vec<String> = a.iter().filter_map(|x| x.as_str().map(|s| s.to_string())).collect();
+                if l.iter().any(|s| s == "*") {
+                    Sel::All
+                } else {
+                    Sel::Some(Arc::new(l))
+                }
+            }
+            _ => {
+                if default_all {
+                    Sel::All
+                } else {
+                    Sel::None
+                }
+            }
+        }
+    }
+    fn has(&self, t: &str) -> bool {
+        match self {
+            Sel::All => true,
+            Sel::None => false,
+            Sel::Some(l) => l.iter().any(|s| s == t),
+        }
+    }
+}
+
+async fn connect(addr: &str, timeout_ms: u64) -> anyhow::Result<Channel> {
+    let ep = Channel::from_shared(format!("http://{}", addr))?
+        .tcp_nodelay(true)
+        .timeout(Duration::from_secs(3600));
+    match tokio::time::timeout(Duration::from_millis(timeout_ms), ep.connect()).await {
+        Ok(Ok(c)) => Ok(c),
+        Ok(Err(e)) => Err(anyhow::anyhow!("connect {}: {}", addr, e)),
+        Err(_) => Err(anyhow::anyhow!("connect {}: timeout after {} ms", addr, timeout_ms)),
+    }
+}
+
+async fn unary(channel: Channel, cmd: Value) -> Value {
+    let timeout_ms = cmd.get("timeout_ms").and_then(|x| x.as_u64()).unwrap_or(5000);
+    let payload = build_payload(&cmd);
+    let mut client = RequestClient::new(channel);
+    let t_call = crate::util::now_ms();
+    let r = tokio::time::timeout(Duration::from_millis(timeout_ms), client.request(tonic::Request::new(payload))).await;
+    let t_ret = crate::util::now_ms();
+    match r {
+        Err(_) => json!({"ok": false, "error": format!("timeout after {} ms", timeout_ms), "timeout": true, "t_call_ms": t_call, "t_ret_ms": t_ret}),
+        Ok(Err(st)) => json!({"ok": false, "error": format!("status: {}", st.message()), "code": format!("{:?}", st.code()), "t_call_ms": t_call, "t_ret_ms": t_ret}),
+        Ok(Ok(resp)) => {
+            let p = resp.into_inner();
+            let mut m = payload_to_json(&p);
+            m.insert("ok".into(), json!(true));
+            m.insert("t_call_ms".into(), json!(t_call));
+            m.insert("t_ret_ms".into(), json!(t_ret));
+            Value::Object(m)
+        }
+    }
+}
+
+impl Client {
+    async fn conn(&mut self, name: &str, addr: Option<&str>, timeout_ms: u64) -> anyhow::Result<&mut Conn> {
+        if !self.conns.contains_key(name) {
+            let a = addr.map(|s| s.to_string()).unwrap_or_else(|| self.default_addr.clone());
+            if a.is_empty() {
+                anyhow::bail!("no address: give --addr or \"addr\" in connect");
+            }
+            let ch = connect(&a, timeout_ms).await?;
+            self.conns.insert(name.to_string(), Conn { addr: a, channel: ch, stream_tx: None, reader: None });
+        }
+        Ok(self.conns.get_mut(name).unwrap())
+    }
+
+    async fn open_stream(&mut self, name: &str, cmd: &Value) -> anyhow::Result<Value> {
+        let addr = cmd.get("addr").and_then(|x| x.as_str()).map(|s| s.to_string());
+        let c = self.conn(name, addr.as_deref(), 5000).await?;
+        if c.stream_tx.is_some() {
+            anyhow::bail!("stream already open on conn {}", name);
+        }
+        let (tx, rx) = mpsc::channel::<Payload>(64);
+        let mut bc = BiRequestStreamClient::new(c.channel.clone());
+        let resp = tokio::time::timeout(
+            Duration::from_secs(5),
+            bc.request_bi_stream(tokio_stream::wrappers::ReceiverStream::new(rx)),
+        )
+        .await
+        .map_err(|_| anyhow::anyhow!("request_bi_stream: no response headers in 5 s"))?
+        .map_err(|st| anyhow::anyhow!("request_bi_stream status: {}", st.message()))?;
+        let mut inbound = resp.into_inner();
+        // set-up request
+        let setup = match cmd.get("setup") {
+            Some(Value::Null) => None,
+            Some(v) => Some(v.clone()),
+            None => Some(json!({"clientVersion": "Nacos-Rust-Client:verif-0.1", "tenant": "", "labels": {"source": "sdk", "module": "verif"}})),
+        };
+        if let Some(s) = setup {
+            let p = PayloadUtils::build_full_payload("ConnectionSetupRequest", s.to_string(), "127.0.0.1", headers_of(cmd.get("headers")));
+            tx.send(p).await.map_err(|_| anyhow::anyhow!("stream closed before set-up"))?;
+        }
+        let ack = Sel::parse(cmd.get("auto_ack"), true);
+        let report = Sel::parse(cmd.get("report"), true);
+        let shared: SharedTx = Arc::new(std::sync::Mutex::new(Some(tx)));
+        let tx2 = shared.clone();
+        let cname = name.to_string();
+        let reader = tokio::spawn(async move {
+            let reason;
+            loop {
+                match inbound.message().await {
+                    Ok(Some(p)) => {
+                        let m = payload_to_json(&p);
+                        let t = m.get("type").and_then(|x| x.as_str()).unwrap_or("").to_string();
+                        let mut acked = false;
+                        if ack.has(&t) && t.ends_with("Request") {
+                            let rid = m.get("body").and_then(|b| b.get("requestId")).cloned().unwrap_or(Value::Null);
+                            let rt = format!("{}Response", &t[..t.len() - "Request".len()]);
+                            let body = json!({"resultCode": 200, "errorCode": 0, "requestId": rid});
+                            let rp = PayloadUtils::build_full_payload(&rt, body.to_string(), "127.0.0.1", Default::default());
+                            acked = match tx_of(&tx2) {
+                                Some(t) => t.send(rp).await.is_ok(),
+                                None => false,
+                            };
+                        }
+                        if report.has(&t) {
+                            let mut e = Map::new();
+                            e.insert("event".into(), json!("push"));
+                            e.insert("conn".into(), json!(cname));
+                            e.insert("type".into(), json!(t));
+                            if let Some(b) = m.get("body") {
+                                e.insert("body".into(), b.clone());
+                            }
+                            if let Some(b) = m.get("body_raw") {
+                                e.insert("body_raw".into(), b.clone());
+                            }
+                            e.insert("headers".into(), m.get("resp_headers").cloned().unwrap_or(Value::Null));
+                            e.insert("acked".into(), json!(acked));
+                            emit(Value::Object(e));
+                        }
+                    }
+                    Ok(None) => {
+                        reason = "eof".to_string();
+                        break;
+                    }
+                    Err(st) => {
+                        reason = format!("status: {:?} {}", st.code(), st.message());
+                        break;
+                    }
+                }
+            }
+            emit(json!({"event": "stream_closed", "conn": cname, "reason": reason}));
+        });
+        c.stream_tx = Some(shared);
+        c.reader = Some(reader);
+        // wait until the server has registered the connection
+        let wait_ms = cmd.get("wait_registered_ms").and_then(|x| x.as_u64()).unwrap_or(3000);
+        let mut registered = false;
+        let t0 = Instant::now();
+        if wait_ms > 0 {
+            let ch = c.channel.clone();
+            while t0.elapsed() < Duration::from_millis(wait_ms) {
+                let r = unary(ch.clone(), json!({"type": "HealthCheckRequest", "body": {}, "timeout_ms": 2000})).await;
+                if r.get("ok") == Some(&json!(true)) && r.get("error_code") != Some(&json!(301)) {
+                    registered = true;
+                    break;
+                }
+                tokio::time::sleep(Duration::from_millis(20)).await;
+            }
+        }
+        Ok(json!({"ok": true, "registered": registered, "register_wait_ms": t0.elapsed().as_millis() as u64}))
+    }
+
+    fn close_stream(&mut self, name: &str, abrupt: bool, forget: bool) -> Value {
+        let mut had = false;
+        if let Some(c) = self.conns.get_mut(name) {
+            had = c.stream_tx.is_some();
+            if abrupt {
+                if let Some(r) = c.reader.take() {
+                    r.abort();
+                }
+                c.stream_tx = None;
+            } else {
+                // taking the shared sender out drops the last long-lived handle: the request stream ends (END_STREAM), the
+                // server removes the connection and ends its side, the reader reports `stream_closed: eof`; safety abort after 3 s
+                if let Some(sh) = c.stream_tx.take() {
+                    if let Ok(mut g) = sh.lock() {
+                        g.take();
+                    }
+                }
+                if let Some(r) = c.reader.take() {
+                    tokio::spawn(async move {
+                        tokio::time::sleep(Duration::from_millis(3000)).await;
+                        r.abort();
+                    });
+                }
+            }
+        }
+        if abrupt || forget {
+            if let Some(c) = self.conns.remove(name) {
+                let addr = c.addr.clone();
+                drop(c);
+                if had {
+                    emit(json!({"event": "stream_closed", "conn": name, "reason": "client-close", "addr": addr}));
+                }
+            }
+        }
+        json!({"ok": true, "had_stream": had})
+    }
+}
+
+async fn main_loop(args: &Args) -> anyhow::Result<()> {
+    let mut cl = Client { default_addr: args.str("addr", ""), conns: HashMap::new() };
+    let stdin = tokio::io::BufReader::new(tokio::io::stdin());
+    let mut lines = stdin.lines();
+    emit(json!({"event": "ready"}));
+    while let Some(line) = lines.next_line().await? {
+        let line = line.trim();
+        if line.is_empty() {
+            continue;
+        }
+        let cmd: Value = match serde_json::from_str(line) {
+            Ok(v) => v,
+            Err(e) => {
+                emit(json!({"id": null, "ok": false, "error": format!("bad command line: {}", e)}));
+                continue;
+            }
+        };
+        let id = cmd.get("id").cloned().unwrap_or(Value::Null);
+        let op = cmd.get("op").and_then(|x| x.as_str()).unwrap_or("").to_string();
+        let name = cmd.get("conn").and_then(|x| x.as_str()).unwrap_or("default").to_string();
+        match op.as_str() {
+            "ping" => answer(&id, json!({"ok": true})),
+            "sleep" => {
+                tokio::time::sleep(Duration::from_millis(cmd.get("ms").and_then(|x| x.as_u64()).unwrap_or(0))).await;
+                answer(&id, json!({"ok": true}));
+            }
+            "connect" => {
+                let addr = cmd.get("addr").and_then(|x| x.as_str()).map(|s| s.to_string());
+                let to = cmd.get("timeout_ms").and_then(|x| x.as_u64()).unwrap_or(5000);
+                match cl.conn(&name, addr.as_deref(), to).await {
+                    Ok(c) => answer(&id, json!({"ok": true, "addr": c.addr})),
+                    Err(e) => answer(&id, json!({"ok": false, "error": e.to_string()})),
+                }
+            }
+            "open_stream" => match cl.open_stream(&name, &cmd).await {
+                Ok(v) => answer(&id, v),
+                Err(e) => answer(&id, json!({"ok": false, "error": e.to_string()})),
+            },
+            "request" => {
+                let addr = cmd.get("addr").and_then(|x| x.as_str()).map(|s| s.to_string());
+                match cl.conn(&name, addr.as_deref(), 5000).await {
+                    Err(e) => answer(&id, json!({"ok": false, "error": e.to_string()})),
+                    Ok(c) => {
+                        let ch = c.channel.clone();
+                        if cmd.get("nowait").and_then(|x| x.as_bool()).unwrap_or(false) {
+                            let id2 = id.clone();
+                            tokio::spawn(async move {
+                                let v = unary(ch, cmd).await;
+                                answer(&id2, v);
+                            });
+                        } else {
+                            let v = unary(ch, cmd).await;
+                            answer(&id, v);
+                        }
+                    }
+                }
+            }
+            "stream_send" => {
+                let r = match cl.conns.get(&name).and_then(|c| c.stream_tx.as_ref().and_then(tx_of)) {
+                    None => json!({"ok": false, "error": "no open stream"}),
+                    Some(tx) => match tx.send(build_payload(&cmd)).await {
+                        Ok(_) => json!({"ok": true}),
+                        Err(_) => json!({"ok": false, "error": "stream closed"}),
+                    },
+                };
+                answer(&id, r);
+            }
+            "close_stream" => {
+                let abrupt = cmd.get("mode").and_then(|x| x.as_str()) == Some("abrupt");
+                let v = cl.close_stream(&name, abrupt, false);
+                answer(&id, v);
+            }
+            "disconnect" => {
+                let v = cl.close_stream(&name, true, true);
+                answer(&id, v);
+            }
+            "exit" => {
+                if cmd.get("abrupt").and_then(|x| x.as_bool()).unwrap_or(false) {
+                    std::process::exit(0);
+                }
+                answer(&id, json!({"ok": true}));
+                break;
+            }
+            other => answer(&id, json!({"ok": false, "error": format!("unknown op {:?}", other)})),
+        }
+    }
+    // polite exit
+    let names: Vec<String> = cl.conns.keys().cloned().collect();
+    for n in names {
+        cl.close_stream(&n, false, false);
+    }
+    tokio::time::sleep(Duration::from_millis(100)).await;
+    Ok(())
+}
+
+pub fn run(args: &Args) -> anyhow::Result<()> {
+    let _ = start();
+    let rt = tokio::runtime::Builder::new_multi_thread().worker_threads(2).enable_all().build()?;
+    let r = rt.block_on(main_loop(args));
+    rt.shutdown_timeout(Duration::from_millis(200));
+    r
 }
